@@ -19,6 +19,7 @@ use varpulis_runtime::persistence::{CheckpointConfig, MemoryStore, StateStore};
 use varpulis_runtime::verif::sched;
 use varpulis_runtime::{Engine, Event};
 
+/// default channel capacity: large, so that C26's discard-when-full cannot interfere
 const CAP: usize = 64;
 
 #[derive(Clone, Copy, Debug, PartialEq, Eq)]
@@ -39,13 +40,20 @@ pub struct Obs {
     /// a context forwarded an event after the barriers were injected and before handling its own barrier
     pub forward_between_injection_and_own_barrier: bool,
     pub restore_error: Option<String>,
+    /// small-capacity units: the first barrier could not be delivered to every context
+    pub barrier_undeliverable: bool,
 }
 
 fn context_of(prog: Prog, stream: &str) -> &'static str {
     prog.streams().iter().find(|(s, _, _)| *s == stream).map(|(_, c, _)| *c).unwrap_or("?")
 }
 
-pub fn run_exec(prog: Prog, n: usize, prefix: &[usize]) -> Exec<Obs> {
+/// `cap` < CAP = the small-capacity units: a barrier may then be undeliverable to a context whose
+/// queue is full, and the checkpoint may be triggered a second time (the periodic tick retries).
+/// A context only steps while every later context has room, so that no forward is ever discarded
+/// (that is C26's known finding, not this property's subject).
+pub fn run_exec_cap(prog: Prog, n: usize, cap: usize, prefix: &[usize]) -> Exec<Obs> {
+    let small = cap < CAP;
     let program = varpulis_parser::parse(&prog.source(true)).unwrap_or_else(|e| mc::machinery_error(&format!("program does not parse: {e:?}")));
     let (ttx, _trx) = tokio::sync::mpsc::channel(10);
     let mut tmp = Engine::new(ttx);
@@ -55,7 +63,7 @@ pub fn run_exec(prog: Prog, n: usize, prefix: &[usize]) -> Exec<Obs> {
     let ctxs = prog.contexts();
     sched::activate();
     let cfg = CheckpointConfig { interval: std::time::Duration::from_secs(3600), max_checkpoints: 3, checkpoint_on_shutdown: false, key_prefix: "verif".into() };
-    let mut orch = ContextOrchestrator::build_with_checkpoint(tmp.context_map(), &program, otx, CAP, Some((cfg, store.clone())), None)
+    let mut orch = ContextOrchestrator::build_with_checkpoint(tmp.context_map(), &program, otx, cap, Some((cfg, store.clone())), None)
         .unwrap_or_else(|e| mc::machinery_error(&format!("orchestrator build: {e}")));
     sched::wait_all_parked(ctxs.len());
     let mut obs = Obs::default();
@@ -63,19 +71,25 @@ pub fn run_exec(prog: Prog, n: usize, prefix: &[usize]) -> Exec<Obs> {
     let mut sent = 0usize;
     let mut last: Option<Actor> = None;
     let mut triggered = false;
+    let mut triggers = 0usize;
+    let mut first_undeliverable = false;
     let mut acks_unseen = 0usize;
     let mut barrier_seen: Vec<bool> = vec![false; ctxs.len()];
     loop {
         let mut enabled = vec![];
-        if sent < n && sched::occupancy("a") < CAP {
+        if sent < n && sched::occupancy("a") < cap {
             enabled.push(Actor::Prod);
         }
         for (i, c) in ctxs.iter().enumerate() {
-            if sched::occupancy(c) > 0 {
+            if sched::occupancy(c) > 0 && (!small || ctxs[i + 1..].iter().all(|d| sched::occupancy(d) < cap)) {
                 enabled.push(Actor::Ctx(i));
             }
         }
-        if !triggered && ctxs.iter().all(|c| sched::occupancy(c) < CAP) {
+        if !triggered && (small || ctxs.iter().all(|c| sched::occupancy(c) < cap)) {
+            enabled.push(Actor::Trigger);
+        }
+        // the retry of the periodic tick after an attempt whose barrier could not reach every context
+        if small && triggers == 1 && first_undeliverable && !obs.completed && ctxs.iter().all(|c| sched::occupancy(c) < cap) {
             enabled.push(Actor::Trigger);
         }
         if triggered && !obs.completed && acks_unseen > 0 {
@@ -102,9 +116,14 @@ pub fn run_exec(prog: Prog, n: usize, prefix: &[usize]) -> Exec<Obs> {
                 labels.push(format!("context {}", ctxs[k]));
             }
             Actor::Trigger => {
+                if triggers == 0 {
+                    first_undeliverable = ctxs.iter().any(|c| sched::occupancy(c) >= cap);
+                    obs.barrier_undeliverable = first_undeliverable;
+                }
                 orch.trigger_checkpoint();
                 triggered = true;
-                labels.push("trigger".into());
+                triggers += 1;
+                labels.push(if triggers == 1 { "trigger".into() } else { "trigger (retry)".into() });
             }
             Actor::Complete => {
                 acks_unseen = 0;
@@ -161,7 +180,7 @@ pub fn run_exec(prog: Prog, n: usize, prefix: &[usize]) -> Exec<Obs> {
         obs.source_consumed_at_barrier = consumed;
         let (otx2, mut orx2) = tokio::sync::mpsc::channel::<Event>(100_000);
         sched::activate();
-        match ContextOrchestrator::build_with_checkpoint(tmp.context_map(), &program, otx2, CAP, None, Some(&cp)) {
+        match ContextOrchestrator::build_with_checkpoint(tmp.context_map(), &program, otx2, cap.max(n + 1), None, Some(&cp)) {
             Ok(orch2) => {
                 sched::wait_all_parked(ctxs.len());
                 for k in (consumed as usize + 1)..=n {
@@ -192,6 +211,11 @@ pub fn run_exec(prog: Prog, n: usize, prefix: &[usize]) -> Exec<Obs> {
 }
 
 fn judge(prog: Prog, reference: &BTreeMap<String, Vec<String>>, x: &Exec<Obs>) -> Option<(String, String)> {
+    if !x.obs.completed && x.obs.barrier_undeliverable {
+        // the property speaks about completed checkpoints only; on the pinned tree an attempt whose
+        // barrier missed a context stays pending for ever (a liveness matter outside C27)
+        return None;
+    }
     if !x.obs.completed {
         return Some((format!("C27:checkpoint_never_completes:{}", prog.name()), "the execution reached quiescence without a completed checkpoint".into()));
     }
@@ -236,7 +260,21 @@ fn judge(prog: Prog, reference: &BTreeMap<String, Vec<String>>, x: &Exec<Obs>) -
     Some((sig, format!("source consumed {} inputs at its barrier; {}", x.obs.source_consumed_at_barrier, diffs.join("; "))))
 }
 
-fn configs(tier: Tier) -> Vec<(Prog, usize, Option<usize>)> {
+/// small-capacity units (capacity 1: one queued event fills a context's channel)
+fn small_configs(tier: Tier) -> Vec<(Prog, usize, Option<usize>, usize)> {
+    match tier {
+        Tier::Quick => vec![(Prog::Chain2, 2, None, 1)],
+        Tier::Thorough => vec![(Prog::Chain2, 2, None, 1), (Prog::Chain2, 3, Some(3), 1), (Prog::Chain2, 3, Some(2), 2), (Prog::Chain3, 2, Some(2), 1)],
+    }
+}
+
+fn configs_cap(tier: Tier) -> Vec<(Prog, usize, Option<usize>, usize)> {
+    let mut v: Vec<(Prog, usize, Option<usize>, usize)> = configs_default(tier).into_iter().map(|c| (c.0, c.1, c.2, CAP)).collect();
+    v.extend(small_configs(tier));
+    v
+}
+
+fn configs_default(tier: Tier) -> Vec<(Prog, usize, Option<usize>)> {
     match tier {
         Tier::Quick => vec![
             (Prog::Chain2, 1, None),
@@ -264,9 +302,10 @@ fn child(args: &Args, unit: J) -> ! {
     let prog = Prog::from_name(unit["prog"].as_str().unwrap());
     let n = unit["n"].as_u64().unwrap() as usize;
     let bound = unit["bound"].as_u64().map(|b| b as usize);
+    let cap = unit["cap"].as_u64().map(|b| b as usize).unwrap_or(CAP);
     let reference = reference_outputs(prog, n);
-    let a = run_exec(prog, n, &[]);
-    let b = run_exec(prog, n, &[]);
+    let a = run_exec_cap(prog, n, cap, &[]);
+    let b = run_exec_cap(prog, n, cap, &[]);
     if a.labels != b.labels || a.obs.pre != b.obs.pre || a.obs.post != b.obs.post {
         mc::machinery_error("same schedule gave different observations (nondeterminism not owned)");
     }
@@ -279,7 +318,7 @@ fn child(args: &Args, unit: J) -> ! {
     let st = explore(
         bound,
         deadline,
-        |p| run_exec(prog, n, p),
+        |p| run_exec_cap(prog, n, cap, p),
         |x| {
             transitions += x.choices.len() as u64;
             *outcomes.entry(format!("{:?}|{:?}|{}", x.obs.pre, x.obs.post, x.obs.source_consumed_at_barrier)).or_default() += 1;
@@ -297,8 +336,8 @@ fn child(args: &Args, unit: J) -> ! {
         },
     );
     if st.complete {
-        let r1 = run_exec(prog, n, &last_sched);
-        let r2 = run_exec(prog, n, &last_sched);
+        let r1 = run_exec_cap(prog, n, cap, &last_sched);
+        let r2 = run_exec_cap(prog, n, cap, &last_sched);
         if r1.obs.pre != r2.obs.pre || r1.obs.post != r2.obs.post {
             mc::machinery_error("last schedule replayed twice gave different observations");
         }
@@ -321,7 +360,8 @@ pub fn run(args: &Args) -> ! {
         let n = case["n"].as_u64().unwrap() as usize;
         let choices: Vec<usize> = case["choices"].as_array().unwrap().iter().map(|v| v.as_u64().unwrap() as usize).collect();
         let reference = reference_outputs(prog, n);
-        let x = run_exec(prog, n, &choices);
+        let cap = case["cap"].as_u64().map(|b| b as usize).unwrap_or(CAP);
+        let x = run_exec_cap(prog, n, cap, &choices);
         rep.evaluations = 1;
         println!("schedule: {:?}\nbefore own barrier: {:?}\nafter restore: {:?}\nsource consumed at barrier: {}", x.labels, x.obs.pre, x.obs.post, x.obs.source_consumed_at_barrier);
         if let Some((sig, desc)) = judge(prog, &reference, &x) {
@@ -329,7 +369,7 @@ pub fn run(args: &Args) -> ! {
         }
         rep.finish();
     }
-    let units: Vec<J> = configs(args.tier).iter().map(|c| json!({"prog": c.0.name(), "n": c.1, "bound": c.2})).collect();
+    let units: Vec<J> = configs_cap(args.tier).iter().map(|c| if c.3 == CAP { json!({"prog": c.0.name(), "n": c.1, "bound": c.2}) } else { json!({"prog": c.0.name(), "n": c.1, "bound": c.2, "cap": c.3}) }).collect();
     let results = run_units("C27", args.tier, units, args.threads);
     let mut consistent = 0u64;
     for (unit, r) in &results {
@@ -354,8 +394,8 @@ pub fn run(args: &Args) -> ! {
     }
     rep.set("units", json!(results.iter().map(|(u, r)| json!({"unit": u, "executions": r["executions"], "complete": r["complete"], "distinct_outcomes": r["distinct_outcomes"], "consistent_cuts": r["consistent"]})).collect::<Vec<_>>()));
     rep.set("schedules_with_consistent_cut", json!(consistent));
-    rep.rule = "Each unit = (program, inputs, preemption bound): stateless DFS over every schedule of {producer, one loop iteration per context, barrier injection at any point, ack drain} within the bound (null = all); every execution ends with a completed coordinated checkpoint in a MemoryStore, a second real orchestrator restored from it, replay of the inputs the source context had not consumed at its barrier, run to quiescence. Every execution is non-trivial (contains a checkpoint and a restore). states = distinct (pre-barrier outputs, post-restore outputs, replay offset) outcomes; transitions = scheduling steps.".into();
-    rep.assume("crash is taken right after the checkpoint completes; channel capacity 64 so that C26's discard-when-full cannot interfere");
+    rep.rule = "Each unit = (program, inputs, preemption bound): stateless DFS over every schedule of {producer, one loop iteration per context, barrier injection at any point, ack drain} within the bound (null = all); every execution ends with a completed coordinated checkpoint in a MemoryStore, a second real orchestrator restored from it, replay of the inputs the source context had not consumed at its barrier, run to quiescence. Units with \"cap\" run with that channel capacity (added after seeded change C27): the barrier may then be undeliverable to a context whose queue is full, the trigger may be repeated once after such an attempt (the periodic tick), a context only steps while every later context has room (no forward is discarded), and an execution in which no checkpoint completes is counted but not judged. Every other execution is non-trivial (contains a checkpoint and a restore). states = distinct (pre-barrier outputs, post-restore outputs, replay offset) outcomes; transitions = scheduling steps.".into();
+    rep.assume("crash is taken right after the checkpoint completes; channel capacity 64 (or the unit's \"cap\" with stepping restricted to contexts whose successors have room) so that C26's discard-when-full cannot interfere");
     rep.assume("inputs not yet consumed = inputs after the source context's EngineCheckpoint.events_processed");
     rep.finish();
 }
